@@ -139,4 +139,20 @@ theorem C09_redump_is_same_document (h : Heap) (wf : h.WellFormed) (root r : GVa
     ∃ st2, rebuild st.out r = .ok (r, st2) ∧ st2.out = st.out :=
   rebuild_stable h wf root r st hb
 
+/-! ## Non-vacuity of the round-trip theorems: a configuration with a shared node and a list -/
+
+private def gdoc : Heap :=
+  [ { kind := .cfg, ty := "f", bk := "Config", children := [(.attr "x", .atom "1")], tags := [(.name "x", [2])] },
+    { kind := .list, children := [(.index 0, .ref 0), (.index 1, .ref 0)] },
+    { kind := .cfg, ty := "g", bk := "Partial", children := [(.attr "a", .ref 1), (.attr "b", .ref 0)] } ]
+
+example : ∃ r st st2, rebuild gdoc (.ref 2) = .ok (r, st) ∧
+    (straightLine st.out r).run = some (r, st.out) ∧
+    rebuild st.out r = .ok (r, st2) ∧ st2.out = st.out := by
+  have wf : gdoc.WellFormed := Heap.wellFormed_of_B gdoc (by decide)
+  obtain ⟨r, st, hb, hload, _⟩ := C09_roundtrip_total gdoc wf (by decide) (.ref 2)
+    (by intro i hi; cases hi; decide)
+  obtain ⟨st2, h2, ho⟩ := C09_redump_is_same_document gdoc wf (.ref 2) r st hb
+  exact ⟨r, st, st2, hb, hload, h2, ho⟩
+
 end Fiddle
